@@ -39,6 +39,8 @@ def show(cell):
 
 def r_serialize(model):
     from a5.core import serialization as s
+    if not model:
+        return r_pool()
     cell = cell_from(model, "c")
     if cell is None:
         return {"confirmed": False, "note": "model outside the input domain"}
@@ -57,8 +59,59 @@ def r_serialize(model):
     return r_roundtrip(model)
 
 
+def r_pool():
+    """Bounded stand-in for C05 (used when a body leaves the accepted subset): encode / decode over a structured pool,
+    including decoding several ids before looking at the results and re-encoding a cell record after changing it."""
+    import random
+    from a5.core import serialization as s
+    from a5.core.origin import origins
+    from a5.core.utils import A5Cell
+    rng = random.Random(0)
+    cells = []
+    for r in range(-1, 30):
+        lim = 1 if r < 2 else 4 ** (r - 1)
+        for S in sorted({0, 1 % lim, 2 % lim, 3 % lim, lim - 1, lim // 2, rng.randrange(lim)}):
+            for o, g in ((0, 0), (3, 2), (11, 4), (rng.randrange(12), rng.randrange(5))):
+                cells.append((o, g, S, r))
+    ids = []
+    for (o, g, S, r) in cells:
+        c = A5Cell(origin=origins[o], segment=g, S=S, resolution=r)
+        try:
+            ids.append(s.serialize(c))
+        except Exception as e:
+            return {"confirmed": True, "input": {"face": o, "segment": g, "S": S, "resolution": r}, "observed": "raised %s: %s" % (type(e).__name__, e)}
+    decoded = [s.deserialize(i) for i in ids]          # all decoded first, compared afterwards
+    seen = {}
+    for (o, g, S, r), i, d in zip(cells, ids, decoded):
+        want = A5Cell(origin=origins[o], segment=g, S=S, resolution=r)
+        if not celleq(d, want) or s.get_resolution(i) != r or not (i == 0 if r == -1 else 1 <= i < 2 ** 64):
+            return {"confirmed": True, "input": show(want), "observed": {"id": "%#x" % i, "decoded (after decoding the whole list)": show(d)}}
+        key = (r, None if r == -1 else o, None if r < 1 else g, S if r >= 2 else 0)
+        if i in seen and seen[i] != key:
+            return {"confirmed": True, "input": [seen[i], key], "observed": "two cells share the id %#x" % i}
+        seen[i] = key
+    # one record, changed in place between two encodings
+    rec = A5Cell(origin=origins[2], segment=1, S=0, resolution=3)
+    i0 = s.serialize(rec)
+    rec["S"] = 5
+    i1 = s.serialize(rec)
+    fresh = s.serialize(A5Cell(origin=origins[2], segment=1, S=5, resolution=3))
+    if i1 != fresh or sorted(rec.keys()) != ["S", "origin", "resolution", "segment"]:
+        return {"confirmed": True, "input": "one cell record encoded, S changed from 0 to 5, encoded again", "observed": "%#x (record now has keys %s)" % (i1, sorted(rec.keys())),
+                "expected": "%#x" % fresh}
+    rec["S"] = 4 ** 2
+    try:
+        v = s.serialize(rec)
+        return {"confirmed": True, "input": "record re-encoded with S = 16 at resolution 3", "observed": "returned %#x" % v, "expected": "ValueError"}
+    except ValueError:
+        pass
+    return {"confirmed": False, "note": "no failing input among %d cells (decode-all-then-compare, re-encode after in-place change)" % len(cells)}
+
+
 def r_roundtrip(model):
     from a5.core import serialization as s
+    if not model:
+        return r_pool()
     cell = cell_from(model, "c")
     if cell is None or not fits(cell, s.MAX_RESOLUTION):
         return {"confirmed": False, "note": "model outside the input domain"}
@@ -78,6 +131,8 @@ def r_roundtrip(model):
 
 def r_injective(model):
     from a5.core import serialization as s
+    if not model:
+        return r_pool()
     c1, c2 = cell_from(model, "c1"), cell_from(model, "c2")
     if c1 is None or c2 is None or celleq(c1, c2):
         return {"confirmed": False, "note": "model outside the input domain"}
@@ -97,6 +152,11 @@ def main():
     try:
         if kind in KINDS:
             out = KINDS[kind](req["payload"]["model"])
+            if not out.get("confirmed") and req["payload"]["model"]:
+                # the model itself is not a failing input (e.g. a frame obligation): bounded search on the pool
+                out2 = r_pool()
+                if out2.get("confirmed"):
+                    out = out2
         else:
             from a5verif import replay_more
             out = replay_more.dispatch(kind, req["payload"])
